@@ -12,7 +12,8 @@ ID = "C19"
 LEVEL = "exploration"
 RULE = (
     "Hypothesis: write cases of C01/C02 (both integrations, all entry points, boundary presets) plus dedicated cases "
-    "with tables >= number of distinct strings; every emitted stream is audited row by row by the reference decoder: "
+    "with tables >= number of distinct strings and 'wide' cases (9..40 distinct prefixes / names / datatypes revisited, that "
+    "kind's table large enough for all, the other tables minimal); every emitted stream is audited row by row by the reference decoder: "
     "(i) no entry row whose value is resident in that table when the row is processed (=> with large tables each string "
     "is sent exactly once); (ii) no statement row carries a term in a slot where the input term equals the previous "
     "statement's input term in that slot (integration equality; sequence inputs) resp. resolves to the previous row's "
@@ -28,8 +29,44 @@ ASSUMPTIONS = [
 
 
 @st.composite
+def wide_case(draw):
+    """Many distinct strings of ONE kind, revisited, with that kind's table large enough for all of them and the other
+    tables as small as the statements allow: nothing may be sent twice, whatever the other tables' sizes are."""
+    c = draw(scen.generic_write_case(max_len=1))
+    kind = draw(st.sampled_from(["prefix", "prefix", "name", "datatype"]))
+    n = draw(st.integers(9, 40))
+    first = list(range(n))
+    again = draw(st.lists(st.integers(0, n - 1), min_size=3, max_size=20))
+    stmts = []
+    for i in first + again:
+        s_ = ["iri", "http://s.example/a"]
+        o_ = ["lit", "v", None, None]
+        if kind == "prefix":
+            s_ = ["iri", "http://p%d.example/ns#a" % i]
+        elif kind == "name":
+            s_ = ["iri", "http://s.example/n%d" % i]
+        else:
+            o_ = ["lit", "v", None, "http://dt.example/t%d" % i]
+        st_ = [s_, ["iri", "http://s.example/p"], o_]
+        if c["phys"] != "TRIPLES":
+            st_.append(["default"] if c["phys"] == "QUADS" else ["iri", "http://s.example/g"])
+        stmts.append(st_)
+    big = draw(st.sampled_from([n + 2, n + 3, 150, 4000]))
+    preset = [max(8, big) if kind == "name" else 8, big if kind == "prefix" else 2, big if kind == "datatype" else 1]
+    if c["entry"] in ("sink_serialize", "flat_to_file_default", "grouped_to_file_default"):
+        c["entry"] = "stream_frames_gen"  # an entry point that takes the preset
+        c["frame_size"] = draw(gen.frame_sizes)
+    c["statements"] = stmts
+    c["preset"] = preset
+    c["wide"] = kind
+    return c
+
+
+@st.composite
 def case_strategy(draw):
-    k = draw(st.integers(0, 3))
+    k = draw(st.integers(0, 4))
+    if k == 4:
+        return draw(wide_case())
     if k == 0:
         c = draw(scen.rdflib_write_case())
     else:
@@ -159,13 +196,19 @@ def body(case, acc):
         if case["preset"] == [4000, 150, 32]:
             labels.append("large_tables")
         labels.append("integration_" + case["integration"])
+        if case.get("wide"):
+            labels.append("wide_" + case["wide"])
         acc.case(case, had_hit and had_repeat and had_seq, labels)
     # (i) strengthened for large tables: each distinct string exactly once
-    if viol is None and case["preset"][0] >= 4000 and case["preset"][1] in (0, 150, 4096):
+    if viol is None and res.options is not None:
+        # whatever the other tables' sizes: a table whose ADVERTISED size holds every distinct string of its kind
+        advertised = {"name": res.options.get("max_name_table_size", 0), "prefix": res.options.get("max_prefix_table_size", 0),
+                      "datatype": res.options.get("max_datatype_table_size", 0)}
         for kind in ("name", "prefix", "datatype"):
             values = [a["value"] for a in res.audit if a.get("table") == kind]
-            if len(values) != len(set(values)) and len(set(values)) < case["preset"][{"name": 0, "prefix": 1, "datatype": 2}[kind]]:
-                viol = Violation(f"C19:redundant-entry:{kind}", f"a {kind} string was sent more than once with a table that holds all", case)
+            if len(values) != len(set(values)) and len(set(values)) <= advertised[kind]:
+                viol = Violation(f"C19:redundant-entry:{kind}", f"a {kind} string was sent more than once although the "
+                                 f"advertised table ({advertised[kind]}) holds all {len(set(values))} distinct ones", case)
     return viol
 
 
